@@ -25,8 +25,8 @@ Init == /\ ini \in Cfgs
 CanonUpd(p, c, u) ==
     CASE u.mode = "none" -> p
       [] u.mode = "checkok" -> [p EXCEPT !.chkAt = c + 1, !.chkErr = FALSE, !.pend = u.plo, !.succAt = c + 1]
-      [] u.mode = "checkfail" -> [p EXCEPT !.chkAt = c + 1, !.chkErr = TRUE, !.pend = {}]
-      [] u.mode = "dl" -> IF u.att = <<>> THEN p
+      [] u.mode \in {"checkfail", "checkcancel"} -> [p EXCEPT !.chkAt = c + 1, !.chkErr = TRUE, !.pend = {}]
+      [] u.mode \in {"dl", "dlcancel"} -> IF u.att = <<>> THEN p
                           ELSE [p EXCEPT !.dlAt = c + 1, !.dlErr = (u.suc # Range(u.att)), !.lastdl = Range(u.att),
                                          !.pend = @ \ Range(u.att), !.succAt = IF u.suc # Range(u.att) THEN @ ELSE c + 1]
 Note(id, dn, upto, dres, upd) == [id |-> id, dn |-> dn, upto |-> upto, dres |-> dres, upd |-> upd]
@@ -53,6 +53,7 @@ SmallOps(s) ==
     \cup {Op("SetFile", r, v, 1, 0, FALSE, m, NoDoc) : r \in {1, 2}, v \in {2, 3}, m \in {"ok", "500"}}
     \cup {NoArg("UpdateIndexes"), NoArg("LoadIndexes"), NoArg("Select"), NoArg("Restart")}
     \cup {[NoArg("Download") EXCEPT !.flag = b] : b \in BOOLEAN}
+    \cup {[NoArg(n) EXCEPT !.mode = "cancelled"] : n \in {"UpdateIndexes", "LoadIndexes", "Download"}}
     \cup {[NoArg("SetOnline") EXCEPT !.flag = b] : b \in BOOLEAN}
     \cup {[NoArg("GetFile") EXCEPT !.r = r] : r \in R}
     \cup {[NoArg("Blacklist") EXCEPT !.i = k] : k \in 1..2}
@@ -69,6 +70,7 @@ ModeBag == <<"ok", "ok", "ok", "ok", "ok", "slow", "404", "500", "trunc">>
 FModeBag == <<"ok", "ok", "slow", "404", "500", "trunc", "404">>
 RelBag == <<0, 2, 3, 3, 4, 6, 6, 7>>
 Rel3Bag == <<0, 0, 0, 0, 2, 6>>
+CtxBag == <<"", "", "", "", "", "", "", "", "", "", "", "cancelled">>
 \* (operators without parameters would be evaluated once and cached by TLC: every draw goes through a parameter)
 Draw(seq, n) == seq[RandomElement(1..Len(seq))]
 
@@ -87,10 +89,10 @@ SimOps(s, n) ==
               LET curs == {<<r, v>> \in R \X Vs : v \in s.res[r].cur}
                   p == IF curs # {} /\ RandomElement(1..4) > 1 THEN RandomElement(curs) ELSE <<RandomElement(R), RandomElement(Vs)>>
               IN {Op("SetFile", p[1], p[2], u, 0, FALSE, Draw(FModeBag, n), NoDoc)}
-         [] fam = "update" -> {NoArg("UpdateIndexes")}
-         [] fam = "load" -> {NoArg("LoadIndexes")}
+         [] fam = "update" -> {[NoArg("UpdateIndexes") EXCEPT !.mode = Draw(CtxBag, n)]}
+         [] fam = "load" -> {[NoArg("LoadIndexes") EXCEPT !.mode = Draw(CtxBag, n)]}
          [] fam = "select" -> {NoArg("Select")}
-         [] fam = "download" -> {[NoArg("Download") EXCEPT !.flag = RandomElement(BOOLEAN)]}
+         [] fam = "download" -> {[NoArg("Download") EXCEPT !.flag = RandomElement(BOOLEAN), !.mode = Draw(CtxBag, n)]}
          [] fam = "getfile" -> LET k == Known(s) IN
                                {[NoArg("GetFile") EXCEPT !.r = IF k # {} /\ RandomElement(1..6) > 1 THEN RandomElement(k) ELSE RandomElement(R)]}
          [] fam = "blacklist" -> IF Len(s.handles) = 0 THEN {NoArg("Select")}
@@ -125,7 +127,7 @@ TotalOK == \A o \in SmallOps(st) : /\ Step(st, o) # {}
                                   /\ \A x \in Step(st, o) :
                                         LET t == CanonUpd(st.upd, st.clock, x.u) IN
                                         /\ UpdViolations(st.upd, st.clock, x.u, t) = {}
-                                        /\ NoteViolations(x.opid, x.u.att, st.upd, t, CanonNotes(x.opid, x.u.att, st.upd, t)) = {}
+                                        /\ NoteViolations(x.opid, x.u.att, st.upd, t, CanonNotes(x.opid, x.u.att, st.upd, t), TRUE) = {}
 Depth == TLCGet("level") <= MaxLen + 1
 View == <<st, done>>
 ====
